@@ -22,6 +22,9 @@ import os
 import sys
 import textwrap
 
+sys.path.insert(0, os.path.dirname(os.path.abspath(__file__)))
+import fieldprobe as P  # noqa: E402
+
 
 def q(s):
     return '"%s"' % str(s).replace('"', '""')
@@ -86,8 +89,8 @@ def synth_cond(cls, fs, idx, fn, names, M):
     bits1, others = [], []
     for fi, f in enumerate(fs[:idx]):
         if isinstance(f, M.Bitfield):
-            for bi, b in enumerate(f._bits):
-                (bits1 if b._width == 1 else others).append((fi, bi, b))
+            for bi, b in enumerate(P.bits_of(f, M)):
+                (bits1 if b.width == 1 else others).append((fi, bi, b))
         elif isinstance(f, M.UnsignedInt) and not isinstance(f, M.CompletionCode):
             others.append((fi, None, f))
     if len(bits1) > 10:
@@ -108,7 +111,7 @@ def synth_cond(cls, fs, idx, fn, names, M):
         return bool(r)
 
     def noise():
-        return [rnd.randrange(256 ** b.length) if bi is None else rnd.randrange(2 ** b._width) for (fi, bi, b) in others]
+        return [rnd.randrange(256 ** b.length) if bi is None else rnd.randrange(2 ** b.width) for (fi, bi, b) in others]
     table = {}
     try:
         for assign in itertools.product((0, 1), repeat=len(bits1)):
@@ -161,7 +164,7 @@ def tr_cond(expr, arg, names, fields, M):
         f = fields[fi]
         if not isinstance(f, M.Bitfield):
             raise Untranslated('predicate reads non-bitfield %s' % fname)
-        bnames = [b.name for b in f._bits]
+        bnames = [b.name for b in P.bits_of(f, M)]
         if bname not in bnames:
             raise Untranslated('predicate reads unknown bit %s.%s' % (fname, bname))
         k = expr.comparators[0].value
@@ -202,13 +205,15 @@ def tr_base(f, names, fields, M):
         return 'BCC', '(VInt %d)' % d, []
     if t is M.Bitfield:
         ws, ds, ns = [], [], []
-        for b in f._bits:
-            if not isinstance(b, M.Bitfield.Bit):
-                raise Untranslated('unknown bit class %s' % type(b).__name__)
+        try:
+            measured = P.bits_of(f, M)
+        except P.ProbeError as e:
+            raise Untranslated('bit layout could not be measured: %s' % e)
+        for b in measured:
             d = b.default if b.default is not None else 0
-            if not isinstance(b._width, int) or b._width < 0 or not isinstance(d, int) or d < 0:
+            if not isinstance(b.width, int) or b.width < 0 or not isinstance(d, int) or d < 0:
                 raise Untranslated('bit width/default not natural')
-            ws.append(b._width)
+            ws.append(b.width)
             ds.append(d)
             ns.append(b.name)
         return ('BBits %d [%s]' % (f.length, '; '.join(map(str, ws))),
@@ -218,7 +223,7 @@ def tr_base(f, names, fields, M):
         return 'BBytes %d' % f.length, '(VBytes %s)' % hexs(d), []
     if t is M.VariableByteArray:
         try:
-            arg, expr = fn_return_expr(f._length_func)
+            arg, expr = fn_return_expr(P.length_fn(f, M))
             if not (isinstance(expr, ast.Attribute) and isinstance(expr.value, ast.Name) and expr.value.id == arg):
                 raise Untranslated('length function outside fragment')
             if expr.attr not in names:
@@ -227,7 +232,7 @@ def tr_base(f, names, fields, M):
         except Untranslated:
             if CLS_CTX[0] is None:
                 raise
-            j = synth_varlen(CLS_CTX[0], fields, [inner_of(g, M) for g in fields].index(f), f._length_func, M)
+            j = synth_varlen(CLS_CTX[0], fields, [inner_of(g, M) for g in fields].index(f), P.length_fn(f, M), M)
             return 'BVar %d' % j, 'VNone', []
     if t is M.String:
         d = f.default if f.default is not None else ''
@@ -271,33 +276,35 @@ CLOBBERED = {'data': '(VBytes [])'}
 
 
 def tr_field(f, names, fields, M):
-    if type(f) is M.Optional:
-        b, _, bn = tr_base(f._field, names, fields, M)
-        d = CLOBBERED.get(f._field.name, 'VNone')
-        return 'mkFld %s KOpt (%s) %s [%s]' % (q(f._field.name), b, d, '; '.join(map(q, bn)))
-    if type(f) is M.Conditional:
+    if isinstance(f, M.Optional):
+        g = P.wrapped(f, M)
+        b, _, bn = tr_base(g, names, fields, M)
+        d = CLOBBERED.get(g.name, 'VNone')
+        return 'mkFld %s KOpt (%s) %s [%s]' % (q(g.name), b, d, '; '.join(map(q, bn)))
+    if isinstance(f, M.Conditional):
+        g = P.wrapped(f, M)
         try:
-            arg, expr = fn_return_expr(f._condition_fn)
+            arg, expr = fn_return_expr(P.condition_fn(f, M))
             c = tr_cond(expr, arg, names, fields, M)
         except Untranslated:
             if CLS_CTX[0] is None:
                 raise
-            c = synth_cond(CLS_CTX[0], fields, fields.index(f), f._condition_fn, names, M)
-        b, d, bn = tr_base(f._field, names, fields, M)
-        d = CLOBBERED.get(f._field.name, d)
-        return 'mkFld %s (KCond %s) (%s) %s [%s]' % (q(f._field.name), c, b, d, '; '.join(map(q, bn)))
+            c = synth_cond(CLS_CTX[0], fields, fields.index(f), P.condition_fn(f, M), names, M)
+        b, d, bn = tr_base(g, names, fields, M)
+        d = CLOBBERED.get(g.name, d)
+        return 'mkFld %s (KCond %s) (%s) %s [%s]' % (q(g.name), c, b, d, '; '.join(map(q, bn)))
     b, d, bn = tr_base(f, names, fields, M)
     d = CLOBBERED.get(f.name, d)
     return 'mkFld %s KPlain (%s) %s [%s]' % (q(f.name), b, d, '; '.join(map(q, bn)))
 
 
 def inner_of(f, M):
-    return f._field if type(f) in (M.Optional, M.Conditional) else f
+    return P.wrapped(f, M)
 
 
 def field_name(f, M):
-    if type(f) in (M.Optional, M.Conditional):
-        return getattr(f._field, 'name', None)
+    if P.is_wrapper(f, M):
+        return getattr(P.wrapped(f, M), 'name', None)
     return getattr(f, 'name', None)
 
 
